@@ -25,6 +25,8 @@ def parseField (s : String) : Option Field :=
       | "s" => m.toNat?.map FKind.str
       | "b" => (optNat m).map FKind.bytes
       | "o" => some FKind.other
+      | "S" => (if m == "-" then some [] else (m.splitOn ".").mapM (·.toNat?)).map FKind.strs
+      | "B" => (if m == "-" then some [] else (m.splitOn ".").mapM optNat).map FKind.bss
       | _ => none)
     some { exported := exported, tag := tg, kind := k }
   | _ => none
@@ -69,7 +71,9 @@ def stepLine (k : Keys) (line : String) : Keys × String :=
         (k, match processFlat k ek fails ov fs with
           | .same => "same"
           | .error => "error"
-          | .filtered ls => "filtered " ++ ",".intercalate (ls.map showLeaf))
+          | .filtered ls => "filtered " ++ ",".intercalate (ls.map (fun o => match o with
+              | .one l => showLeaf l
+              | .many xs => "[" ++ ";".intercalate (xs.map showLeaf) ++ "]")))
       | none => (k, "bad-op")
     | _, _ => (k, "bad-op")
   | _ => (k, "bad-op")
